@@ -162,3 +162,111 @@ def run_nodes(params, known):
 
 # the third and later bundles follow the one before after one of these numbers of scheduler steps
 LATER_GAPS = (0, 1, 2, 3, 5, 8, 13, 21, 34, 55)
+
+
+# ---------------------------------------------------------------------------
+# whole nodes over UDPCL (bp.cla.UdpclAdaptor)
+
+# name -> (world parameters, [(sender, destination node, payload length)])
+UDP_WORKLOADS = {
+    'one': (dict(), [(0, 1, 5)]),
+    'three-back-to-back': (dict(), [(0, 1, 1), (0, 1, 90), (0, 1, 2)]),
+    'segmented-by-the-cl': (dict(cl_mtu=120), [(0, 1, 300), (0, 1, 10), (0, 1, 200)]),
+    'fragmented-by-the-route': (dict(routes={0: [('^dtn://n1/.*', 1, 200)], 1: []}), [(0, 1, 300), (0, 1, 10)]),
+    'fragmented-and-segmented': (dict(cl_mtu=120, routes={0: [('^dtn://n1/.*', 1, 260)], 1: []}), [(0, 1, 400)]),
+    'both-ways': (dict(cl_mtu=150), [(0, 1, 200), (1, 0, 7), (0, 1, 3), (1, 0, 180)]),
+    # three nodes in a line: n0 -> n1 -> n2, forwarded by the node in the middle
+    'forwarded': (dict(nodes=3, cl_mtu=150, routes={0: [('^dtn://n2/.*', 1, None)], 1: [('^dtn://n2/.*', 2, None)], 2: []}),
+                  [(0, 2, 5), (0, 2, 260)]),
+    # node 1 has no configured route: it learns of node 0 from its polling announcement
+    'reply-to-an-announced-peer': (dict(poll=[(0, 1)], routes={0: [('^dtn://n1/.*', 1, None)], 1: []}), [(0, 1, 4), (1, 0, 170)]),
+}
+
+
+def run_udp_nodes(params, known):
+    '''Every workload under every priority order of the processes, datagrams delivered oldest / newest
+    first, bundles handed over back to back or one after the other has settled: each bundle reaches the
+    destination application once and intact, nothing is left in a receive queue, every signal fits its
+    declared signature, every started transfer is reported finished once.'''
+    import itertools
+    from .. import env as _env
+    _env.load_bp()
+    from ..udp_node_world import UdpNodeWorld
+    from .c05 import impl_container
+    prop = params.get('prop', PROP)
+    violations = []
+    kinds = set()
+    keys = set()
+    count = 0
+    wname = params['workload']
+    (wparams, sends) = UDP_WORKLOADS[wname]
+
+    def viol(kind, detail, case):
+        if kind in kinds:
+            return
+        kinds.add(kind)
+        v = Violation(prop, 'udp-nodes', kind, dict(), '%r: %s' % (case, detail)).as_dict()
+        v['case'] = case
+        violations.append(v)
+    nodes = wparams.get('nodes', 2)
+    names = ['N%d' % i for i in range(nodes)]
+    for (order, deliver, spacing) in itertools.product(itertools.permutations(names), ('fifo', 'lifo'), ('back-to-back', 'settled')):
+        case = dict(workload=wname, order=list(order), datagrams=deliver, spacing=spacing)
+        world = UdpNodeWorld(wparams)
+        world.quiesce(order, deliver)
+        if wparams.get('poll'):
+            world.run_until(1500000, order, deliver)    # the first announcement goes out after one second
+        want = {}
+        for (n, (src, dst, length)) in enumerate(sends):
+            if src != sends[0][0] and not world.probe(src):
+                # an answer: the first bundle must have arrived before it can be sent
+                world.quiesce(order, deliver)
+            bundle = _bundle(src, dst, n + 1, length)
+            want.setdefault(dst, []).append(('dtn://n%d/app' % src, (T0, n + 1), bundle['blocks'][-1]['data']))
+            world.send(src, impl_container(bundle))
+            if spacing == 'settled':
+                world.quiesce(order, deliver)
+        try:
+            world.quiesce(order, deliver)
+        except Exception as err:
+            viol('run-does-not-end', str(err), case)
+            continue
+        count += 1
+        keys.add('%s/%s/%s/%s' % (wname, ''.join(order), deliver, spacing))
+        sig = world.sig
+        if sig.escaped:
+            viol('escaped-exception', '%s: %s\n%s' % (sig.escaped[-1][1], sig.escaped[-1][2], sig.escaped[-1][3][-600:]), case)
+        if sig.marshal_errors:
+            viol('signal-or-return-does-not-fit-signature', repr(sig.marshal_errors[-1]), case)
+        if world.api_errors:
+            viol('send-raised', '%s: %s' % world.api_errors[-1][:2], case)
+        for node in range(nodes):
+            got = [(d['src'], tuple(d['ts']), [bytes.fromhex(b[2]) for b in d['blocks'] if b[0] == 1]) for d in world.probe(node)]
+            exp = want.get(node, [])
+            for (src, ts, data) in exp:
+                n_got = [g for g in got if g[0] == src and g[1] == ts]
+                if len(n_got) != 1:
+                    viol('bundle-not-delivered-once-to-the-application', 'node %d: bundle %s %r handed over %d times (all: %r)'
+                         % (node, src, ts, len(n_got), [(g[0], g[1]) for g in got]), case)
+                elif n_got[0][2] != [data]:
+                    viol('delivered-payload-differs', 'node %d: %d octets instead of %d' % (node, sum(len(x) for x in n_got[0][2]), len(data)), case)
+            if len(got) > len(exp):
+                viol('unexpected-delivery', 'node %d was handed %r' % (node, [(g[0], g[1]) for g in got]), case)
+            rq = world.rx_queue(node)
+            if rq != []:
+                viol('queue-not-empty-at-the-end', 'node %d: receive queue %r' % (node, rq), case)
+        started = {}
+        finished = {}
+        for (pname, _path, member, args) in sig.log:
+            if member == 'send_bundle_started':
+                started[(pname, args[0])] = started.get((pname, args[0]), 0) + 1
+            elif member == 'send_bundle_finished':
+                finished[(pname, args[0])] = finished.get((pname, args[0]), 0) + 1
+                if (pname, args[0]) not in started:
+                    viol('finished-signal-without-a-started-transfer', repr((pname, args)), case)
+                if args[2] != 'success':
+                    viol('transfer-not-reported-successful', repr((pname, args)), case)
+        for (key, num) in started.items():
+            if num != 1 or finished.get(key, 0) != 1:
+                viol('started-transfer-not-finished-exactly-once', '%r started %d times, finished %d times' % (key, num, finished.get(key, 0)), case)
+    return dict(name=params['name'], evaluations=count, nontrivial_keys=sorted(keys), violations=violations, known=[], samples=[])
